@@ -24,7 +24,8 @@ EXPLANATION = (
     "OPT and TSIG/SIG(0) out of the additionals exactly when is_additional; (Q2) no emit/read/read_data function of a message part or RDATA "
     "type (cone inside rr::rdata, dnssec::rdata, op, rr::record*) calls a reordering, filtering, truncating or re-casing operation "
     "(sort*, dedup*, retain, reverse, filter, take/skip, to_*case, Vec::remove/insert...), with one reviewed exception (ECS address prefix); (G4) the offset ORed into a compression pointer is below 2^14: guarded where "
-    "candidates are stored (write offset < 0x3FFF) or where they are used (top two bits clear) - at least one of the two.")
+    "candidates are stored (write offset < 0x3FFF) or where they are used (top two bits clear) - at least one of the two; (G5) the EDNS client-subnet decoder yields an address of family F only "
+    "under address octets <= size of F, the bound the encoder enforces (what decodes can be re-encoded).")
 NOT_DECIDED = ("Equality of values after a round trip (case preservation, option ordering, >120 compressed names, pointer offsets >= 0x3FFF, "
                "per-type field order and width agreement between emit and read_data - not linearised by this checker); which of the two "
                "flag octets a mask is applied to.")
